@@ -74,7 +74,19 @@ def failing_keys(props, d, tag, cfgs):
     return out
 
 
+_WORKER_SLOT = None
+
+
+def _init_worker(q):
+    """each worker process takes one slot for good: its cargo target directory (.cache/target-<cfg>-st<slot>) is reused for
+    every entry it runs, so a full run needs `jobs` target directories, not one per entry"""
+    global _WORKER_SLOT
+    _WORKER_SLOT = q.get()
+
+
 def run_one(entry, slot, cfgs, baseline):
+    if _WORKER_SLOT is not None:
+        slot = _WORKER_SLOT
     if not KNOWN_LIMITS:
         load_catalogue()        # a worker process starts without the catalogue's known-limit table
     kind, mid, props, edits, expect = entry
@@ -138,11 +150,19 @@ def run(prop=None, ident=None, jobs=6, cfgs=("default", "nodefault"), quiet=Fals
     results = []
     # worker *processes*: the analyses are CPU-bound Python (threads would share one core)
     from concurrent.futures import ProcessPoolExecutor
-    pool = ProcessPoolExecutor if jobs > 1 and not os.environ.get("MQ_SELFTEST_THREADS") else ThreadPoolExecutor
-    with pool(max_workers=jobs) as ex:
+    use_proc = jobs > 1 and not os.environ.get("MQ_SELFTEST_THREADS")
+    if use_proc:
+        import multiprocessing
+        q = multiprocessing.Manager().Queue()
+        for k in range(jobs):
+            q.put(k)
+        ex_ = ProcessPoolExecutor(max_workers=jobs, initializer=_init_worker, initargs=(q,))
+    else:
+        ex_ = ThreadPoolExecutor(max_workers=jobs)
+    with ex_ as ex:
         futs = []
         for i, e in enumerate(entries):
-            futs.append(ex.submit(run_one, e, i, cfgs, base))
+            futs.append(ex.submit(run_one, e, i % jobs, cfgs, base))
         for fu in futs:
             r = fu.result()
             results.append(r)
